@@ -498,7 +498,16 @@ func cmdCheck(args []string) int {
 			nDischarged += d
 		}
 		extra := len(und) - e.Undecided
-		if d < want && extra > 0 {
+		isContractKind := len(os) > 0 && !strings.HasPrefix(os[0].Kind, "SAFE-")
+		if isContractKind && e.Undecided == 0 && len(und) > 0 {
+			// a contract clause that was proved on every path: any path on which it is no longer proved is a violation
+			if d >= want {
+				nDischarged -= 0
+			}
+			for _, o := range und {
+				report(o, "contract clause proved on the unchanged tree is no longer proved on every path")
+			}
+		} else if d < want && extra > 0 {
 			for i, o := range und {
 				if i >= extra && e.Discharged+e.Undecided >= len(os) {
 					break
@@ -566,9 +575,13 @@ func cmdCheck(args []string) int {
 		"unbound_contracts":        w.Contracts.Unbound,
 		"known_findings":           knownPrinted,
 		"contract_files":           w.Contracts.Files,
+		"pure_declarations_not_confirmed_by_effect_analysis": w.PureUnverified,
 		"integers":                 "mathematical Int with machine ranges assumed on inputs/loads; conversions wrap; overflow of + - * is not checked",
 	}
-	ev := &Evidence{PropertyID: *prop, Tier: *tier, Seed: seed, Level: "proof", Coverage: cov, Assumptions: append(notes, propertyAssumptions(*prop)...),
+	assumptions := append([]string{}, notes...)
+	assumptions = append(assumptions, propertyAssumptions(*prop)...)
+	assumptions = append(assumptions, "functions marked pure / assigns nothing in contract files are trusted not to modify caller-visible heap", "the visitor/rewriter frameworks call only the callbacks they are given (callback-parametric declaration)")
+	ev := &Evidence{PropertyID: *prop, Tier: *tier, Seed: seed, Level: "proof", Coverage: cov, Assumptions: assumptions,
 		WallS: time.Since(t0).Seconds(), Violations: violations}
 	b, _ := json.MarshalIndent(ev, "", " ")
 	os.MkdirAll(filepath.Join(verifDir, "evidence"), 0o755)
